@@ -10,7 +10,8 @@ PROPERTY = 'C19'
 RULE = ('A real BP agent processes one received bundle (independent RFC 9171 encoder) per case in a history of 1-3 '
         'bundles.  Enumerated completely: every subset of the five report flags (reception, forwarding, delivery, '
         'deletion, status-time) x report-to {dtn:none, dtn node, ipn node} x outcome {deliver, forward, forward with '
-        'fragmentation, delete route, no route, forward without transmit route, security failure} = 672 cells; '
+        'fragmentation, delete route, no route, forward without transmit route, security failure, forward whose '
+        'convergence layer raises at hand-over} = 768 cells; '
         'Hypothesis adds random bundle content (EIDs, timestamps on CBOR boundaries, CRC types, extension blocks, '
         'payload sizes) around the same cells.  Oracle on the octets handed to the convergence layer, parsed '
         'independently: a report appears only if report-to != dtn:none and a requested action occurred (occurrence '
@@ -25,10 +26,10 @@ ASSUMPTIONS = [
     'bundles that are themselves administrative records are not generated (RFC 9171 forbids report requests on them)',
     'for a bundle that matches no route the agent records nothing but "received"; only the "only if" direction is judged there',
 ]
-EXHAUSTIVE_PART = '2^5 report-flag subsets x 3 report-to values x 7 outcomes = 672 cells'
+EXHAUSTIVE_PART = '2^5 report-flag subsets x 3 report-to values x 8 outcomes = 768 cells'
 
 NODE = 'dtn://me/'
-OUTCOMES = ['deliver', 'forward', 'forward-frag', 'delete', 'noroute', 'fwd-no-tx', 'sec-fail']
+OUTCOMES = ['deliver', 'forward', 'forward-frag', 'delete', 'noroute', 'fwd-no-tx', 'sec-fail', 'fwd-cl-fails']
 RPT_TO = [['dtn', 'none'], ['dtn', '//reports/here'], ['ipn', 77, 2]]
 
 
@@ -80,6 +81,7 @@ def build(item, index):
     outcome = item['outcome']
     dest = {'deliver': ['dtn', '//me/svc'], 'forward': ['dtn', '//fwd/x'], 'forward-frag': ['dtn', '//fwd/x'],
             'delete': ['dtn', '//del/x'], 'noroute': ['dtn', '//zzz/q'], 'fwd-no-tx': ['dtn', '//lost/x'],
+            'fwd-cl-fails': ['dtn', '//fwd/x'],
             'sec-fail': ['dtn', '//me/svc']}[outcome]
     flags = flag_bits(item['mask']) | int(item.get('other_flags', 0))
     if outcome == 'forward-frag':
@@ -137,6 +139,9 @@ def one(node, item, index, out):
         node.config.tx_route_table[0].mtu = len(r.encode(empty)) + 80
     else:
         node.config.tx_route_table[0].mtu = None
+    # the convergence layer towards the forwarding next hop fails at hand-over (its service went away); reports travel
+    # over another next hop and still get out
+    node.cl.fail_next = {'dtn://next/'} if outcome == 'fwd-cl-fails' else set()
     n_sent, n_rec = len(node.sent()), len(node.records())
     err = node.receive(wire)
     if err is not None:
@@ -158,7 +163,7 @@ def one(node, item, index, out):
         occurred.add('delivered')
     if forwarded:
         occurred.add('forwarded')
-    if outcome in ('delete', 'fwd-no-tx', 'sec-fail') and not delivered and not forwarded:
+    if outcome in ('delete', 'fwd-no-tx', 'sec-fail', 'fwd-cl-fails') and not delivered and not forwarded:
         occurred.add('deleted')
     want_kind = {'deliver': 'delivered', 'forward': 'forwarded', 'forward-frag': 'forwarded'}.get(outcome)
     if want_kind and want_kind not in occurred:
